@@ -303,6 +303,9 @@ class C16(Prop):
                    "tensordot with compile-time axes 0 does not compile in the library (index::range over an empty range): ct axes are 1..4, "
                    "axes=0 is exercised through the run-time integer form"]
     chunk = 150
+    # ASan's default 256 MB quarantine lets a server grow past 1 GB within a few thousand of these allocation-heavy pipelines
+    # (14 workers -> OOM kills on a shared machine, seen as spurious crashes); 16 MB keeps it < 0.5 GB over a whole thorough run
+    server_env = {"linalg": {"ASAN_OPTIONS": "quarantine_size_mb=16"}}
 
     # ---- exhaustive ------------------------------------------------------
     def exhaustive_space(self, tier):
@@ -342,7 +345,7 @@ class C16(Prop):
 
     # ---- random ----------------------------------------------------------
     def n_random(self, tier):
-        return 2800 if tier == "quick" else 30000
+        return 2800 if tier == "quick" else 20000
 
     def strategy(self, tier):
         CAP = 600
